@@ -20,8 +20,8 @@ Print Assumptions C14_options_persist.
 Example C14_ex : reset_is_false PyNone = true.
 Proof. reflexivity. Qed.
 
-(* PARTS = WHOLE at the block loop: if the blocks of A (line blocks and delimited blocks, taken by the loop one after the
-   other: prefix_run) end before a non-empty run of trailing blank lines of A -- so no block of A is unterminated and A
+(* PARTS = WHOLE at the block loop: if the blocks of A (line blocks, lists and delimited blocks, taken by the loop one after
+   the other: prefix_run) end before a non-empty run of trailing blank lines of A -- so no block of A is unterminated and A
    does not end in a list --, then for every B the loop renders A followed by B as it renders A, then B from the session
    that A left: same HTML, same session, same diagnostics (the log is part of the session) *)
 Theorem C14_parts_equal_whole : forall fuel doc n la lb s o rdk sk n',
